@@ -108,6 +108,13 @@ def load_python_file(dir_: str, filename: str) -> ModuleType:
 
 def load_module_py(module_id: str, path: str) -> ModuleType:
     spec = importlib.util.spec_from_file_location(module_id, path)
+    if spec is None and path.endswith(".pyo"):
+        # importlib no longer associates a loader with the .pyo suffix
+        spec = importlib.util.spec_from_file_location(
+            module_id,
+            path,
+            loader=importlib.machinery.SourcelessFileLoader(module_id, path),
+        )
     assert spec
     module = importlib.util.module_from_spec(spec)
     spec.loader.exec_module(module)  # type: ignore
